@@ -875,6 +875,44 @@ def str_template(e: ast.AST | None) -> list | None:
     return merged
 
 
+def module_state_writes(fn: ast.AST, module_names: Iterable[str]) -> list[ast.AST]:
+    """statements / calls of a function that write into module-level containers: `NAME[k] = v`, `NAME.attr = v`, `del NAME[k]`,
+    `NAME.append/extend/update/setdefault/pop/clear/...(...)`, `global NAME` rebinding - for NAME assigned at module level and not
+    shadowed by a local of the function"""
+    MUT = {"append", "extend", "insert", "pop", "remove", "clear", "update", "setdefault", "sort", "reverse", "discard", "add", "popitem", "__setitem__"}
+    mod = set(module_names)
+    local = {n.id for n in N.walk_no_nested_defs(fn) if isinstance(n, ast.Name) and isinstance(n.ctx, ast.Store)}
+    a = getattr(fn, "args", None)
+    if a is not None:
+        local |= {x.arg for x in [*a.posonlyargs, *a.args, *a.kwonlyargs]}
+    declared_global = {nm for n in ast.walk(fn) if isinstance(n, ast.Global) for nm in n.names}
+    local -= declared_global
+    out = []
+
+    def base(t):
+        while isinstance(t, (ast.Attribute, ast.Subscript)):
+            t = t.value
+        return t.id if isinstance(t, ast.Name) else None
+    for n in N.walk_no_nested_defs(fn):
+        tg = []
+        if isinstance(n, ast.Assign):
+            tg = n.targets
+        elif isinstance(n, (ast.AugAssign, ast.AnnAssign)):
+            tg = [n.target]
+        elif isinstance(n, ast.Delete):
+            tg = n.targets
+        for t in tg:
+            for tt in (t.elts if isinstance(t, (ast.Tuple, ast.List)) else [t]):
+                b = base(tt)
+                if b in mod and b not in local and (isinstance(tt, (ast.Attribute, ast.Subscript)) or b in declared_global):
+                    out.append(n)
+        if isinstance(n, ast.Call) and isinstance(n.func, ast.Attribute) and n.func.attr in MUT:
+            b = base(n.func.value)
+            if b in mod and b not in local:
+                out.append(n)
+    return out
+
+
 def value_candidates(fn: ast.FunctionDef, name_or_none: str | None = None):
     """what a function can return, each with the branch literals under which it is produced:
     [(expression, [(test, polarity), ...])] - for `return <expr>` the expression itself; for `return <name>` every definition of that
